@@ -177,6 +177,7 @@ func runC16(w *World, c *Check) {
 	c.Rule("C16.derived", "the enctype id lists are recomputed from the name lists and allow_weak_crypto on the success path", 3)
 	c.Rule("C16.errors", "a section parser's error other than UnsupportedDirective aborts the load; unpaired braces are errors; a line without '=' is an error", 8)
 	c.Rule("C16.boolean", "parseBoolean accepts strconv.ParseBool's spellings and, case-folded, yes/y → true, no/n → false, and rejects everything else", 6)
+	c.Rule("C16.trim", "the value parsers strip surrounding whitespace (spaces and tabs around '=' are layout): whatever parseBoolean and parseDuration hand to a parsing routine derives from strings.TrimSpace of their argument", 2)
 	c.Rule("C16.select", "GetKDCs and GetKpasswdServers take the servers of the realm equal to the argument (the default realm for an empty argument) and report their number", 6)
 	c.Rule("C16.resolve", "ResolveRealm tries the whole name, then its suffixes from the longest to the shortest, and returns the first mapping found", 4)
 	c.Rule("C16.once", "randServOrder draws among the servers that remain and removes exactly the drawn one in each step", 5)
@@ -661,6 +662,29 @@ func runC16(w *World, c *Check) {
 			}
 		}
 		c.Decide(okErr, "C16.boolean", fk, "reject-others", w.Pos(fn.Pos()), "any other spelling is an error", "no (false, error) return")
+	}
+
+	// ---- 4b. the value parsers trim --------------------------------------------------------------------------
+	for _, fk := range []string{"config.parseBoolean", "config.parseDuration"} {
+		fn := w.Func(fk)
+		if fn == nil {
+			c.Missing("C16.trim", fk)
+			continue
+		}
+		fa := NewFuncAn(w, fn)
+		var bad []string
+		n := 0
+		for _, dc := range fa.CallsDeep(`strconv\.Parse\w+|strconv\.Atoi|time\.ParseDuration|strings\.Split\w*|strings\.ToLower|strings\.Contains`) {
+			a := dc.fa.CallArgs(dc.ci)
+			if len(a) == 0 || !strings.Contains(a[0], substParams(fn, "s")) && !strings.Contains(a[0], "strings.") {
+				continue // not about the argument
+			}
+			n++
+			if !strings.Contains(a[0], "strings.TrimSpace("+substParams(fn, "s")+")") {
+				bad = append(bad, trunc(dc.fa.RenderCall(dc.ci), 100))
+			}
+		}
+		c.Decide(n > 0 && len(bad) == 0, "C16.trim", fk, "trimmed", w.Pos(fn.Pos()), "every parsing step works on strings.TrimSpace of the argument", fmt.Sprintf("%d parsing calls, not on the trimmed value: %v", n, bad))
 	}
 
 	// ---- 5. realm selection -----------------------------------------------------------------------------------
